@@ -28,6 +28,10 @@ Definition mk_dcs (t : list ((float * list (float * float * float)) * (float * t
     lookup (fun a b => fsame (fst a) (fst b) && lsame triple_same (snd a) (snd b)) (stpmax, h) t (nan, TErr).
 Definition mk_dot (t : list ((vec * vec) * float)) : vec -> vec -> float :=
   fun a b => lookup (fun p q => vsame (fst p) (fst q) && vsame (snd p) (snd q)) (a, b) t nan.
+(* finite differences: stencil points and estimates recorded from SciPy's approx_derivative *)
+Definition mk_sten (t : list (vec * list vec)) : vec -> list vec := fun x => lookup vsame x t [].
+Definition mk_fdest (t : list ((vec * float) * res vec)) : vec -> float -> list float -> res vec :=
+  fun x v _ => lookup (fun a b => vsame (fst a) (fst b) && fsame (snd a) (snd b)) (x, v) t miss.
 Definition mk_cb (t : list (Z * res bool)) : result -> res bool := fun s => lookup Z.eqb (r_nit s) t miss.
 Definition mk_upd (t : list ((vec * float) * res (float * float * vec * list vec))) :
   vec -> float -> float -> vec -> list vec -> list vec -> res (float * float * vec * list vec) :=
